@@ -318,6 +318,23 @@ def install(fs: SimFS, patch_resources: bool = True) -> None:
             return FS.open_fd(s)
         return real_os_open(path, flags, mode, dir_fd=dir_fd)
 
+    real_fileio = io.FileIO
+
+    class SimFileIO(real_fileio):
+        """io.FileIO that serves paths under the simulated root from an in-memory descriptor."""
+
+        def __init__(self, file, mode="r", closefd=True, opener=None):
+            s = _under(file) if not isinstance(file, int) else None
+            if s is not None:
+                if any(ch in mode for ch in "wax+"):
+                    raise PermissionError(errno.EACCES, "simulated storage is read-only", s)
+                super().__init__(FS.open_fd(s), mode, closefd=True)
+                self._sim_name = s
+            else:
+                super().__init__(file, mode, closefd, opener)
+
+    SimFileIO.__name__ = SimFileIO.__qualname__ = "FileIO"
+    io.FileIO = SimFileIO
     os.open = sim_os_open
     builtins.open = sim_open
     io.open = sim_open
